@@ -1,8 +1,90 @@
 import GceTcb.Base.Line
-/- Driver handler for stream `c12` (stub: replaced when the property's model lands). -/
-namespace GceTcb.Drive.C12
-open GceTcb
+import GceTcb.Model.KeyHistory
+/-
+Driver handler for stream `c12` (key-management histories).
 
-def handle (_f : Fields) : String := "unimplemented"
+  c12 op=hist ca=memca|gcsca km=memkm|localkm seq=0|1 cli=0|1 cmds=<cmd>;<cmd>;…
+      cmd = b:<ow><kg>:<rootCn>:<signCn>:<rootSerial>:<signSerial>:<now>
+          | r:<ow><kg>:<cn>:<serial override, 0 = none>:<now>
+          | w:<ow><kg>:<ca><keys>
+    → the observation after the LAST command of the list:
+      ok=<0|1> pr=<name> ps=<name> root=<cert|-> ents=<name>@<cert|->,… live=<name>,…
+      cert = certSerial/subjSerial/cn/issuerCn/issuerSerial/isCA/keyUsage/sigAlg/notBefore/notAfter/
+             self/vr/ir/km   (self: verifies under its own key; vr: verifies under the served root's key;
+             ir: issuer name = served root's subject; km: the live key of that name is the subject key 1/0, x = not live)
+  c12 op=bump s=<name>  → memkm.BumpName(name)
+-/
+namespace GceTcb.Drive.C12
+open GceTcb GceTcb.KeyHistory
+
+def b01 (b : Bool) : String := if b then "1" else "0"
+
+def nameStr (k : KName) : String := if k.show == "" then "-" else k.show
+
+def parseFlags (s : String) : Flags :=
+  match s.toList with
+  | [o, k] => ⟨o == '1', k == '1'⟩
+  | _ => ⟨false, false⟩
+
+def parseCmd (s : String) : Option Cmd :=
+  match s.splitOn ":" with
+  | ["b", fl, rcn, scn, rs, ss, now] =>
+    some (.bootstrap (parseFlags fl) ⟨rcn, scn, rs.toNat?.getD 0, ss.toNat?.getD 0, now.toNat?.getD 0⟩)
+  | ["r", fl, cn, ser, now] =>
+    let n := ser.toNat?.getD 0
+    some (.rotate (parseFlags fl) ⟨cn, if n = 0 then none else some n, now.toNat?.getD 0⟩)
+  | ["w", fl, ck] =>
+    match ck.toList with
+    | [c, k] => some (.wipeout (parseFlags fl) (c == '1') (k == '1'))
+    | _ => none
+  | _ => none
+
+def showCert (cfg : Cfg) (s : State) (n : KName) (c : Cert) : String :=
+  let self := c.signerKey == c.subjectKey
+  let (vr, ir) := match bundle cfg s.ca with
+    | some r => (c.signerKey == r.subjectKey, c.issuerCn == r.cn && c.issuerSerial == r.subjSerial)
+    | none => (false, false)
+  let km := match get s.km.live n with
+    | some k => b01 (k == c.subjectKey)
+    | none => "x"
+  "/".intercalate [toString c.certSerial, toString c.subjSerial, c.cn, c.issuerCn, toString c.issuerSerial,
+    b01 c.isCA, toString c.keyUsage, toString c.sigAlg, toString c.notBefore, toString c.notAfter,
+    b01 self, b01 vr, b01 ir, km]
+
+def insertSorted (x : String) : List String → List String
+  | [] => [x]
+  | y :: ys => if x ≤ y then x :: y :: ys else y :: insertSorted x ys
+
+def sortStrings (l : List String) : List String := l.foldr insertSorted []
+
+def observe (cfg : Cfg) (s : State) (ok : Bool) : String :=
+  let root := match bundle cfg s.ca with
+    | some r => showCert cfg s s.ca.primaryRoot r
+    | none => "-"
+  let ents := sortStrings (s.ca.entries.map fun (n, p) =>
+    nameStr n ++ "@" ++ (match get s.ca.objects p with | some c => showCert cfg s n c | none => "-"))
+  let live := sortStrings (s.km.live.map fun (n, _) => nameStr n)
+  s!"ok={b01 ok} pr={nameStr s.ca.primaryRoot} ps={nameStr s.ca.primarySigning} root={root} ents={",".intercalate ents} live={",".intercalate live}"
+
+def runObs (cfg : Cfg) : State → Bool → List Cmd → State × Bool
+  | s, ok, [] => (s, ok)
+  | s, _, c :: rest => runObs cfg (step cfg s c).1 (step cfg s c).2 rest
+
+def handle (f : Fields) : String :=
+  match f.get "op" with
+  | "hist" =>
+    let cfg : Cfg := ⟨if f.get "ca" == "memca" then .memca else .gcsca,
+                      if f.get "km" == "localkm" then .localkm else .memkm,
+                      f.bool "seq", f.bool "cli"⟩
+    let raw := if f.get "cmds" == "" then [] else (f.get "cmds").splitOn ";"
+    let cmds := raw.filterMap parseCmd
+    if cmds.length ≠ raw.length then "bad-op"
+    else
+      let (s, ok) := runObs cfg State.init true cmds
+      observe cfg s ok
+  | "bump" => bumpNameStr (f.get "s")
+  | "consts" =>
+    s!"seq={b01 Gen.CertConsts.rotateSequential}"
+  | _ => "bad-op"
 
 end GceTcb.Drive.C12
